@@ -16,8 +16,19 @@ package verifspec
 
 //@ iface error.Error
 //@   results s
+//@   ensures same(s, self.$errtext)
 //@   assigns \nothing
 
 //@ extern github.com/bytedance/gopkg/lang/span.NewSpanCache
 //@   ensures !isnil(ret)
+//@   assigns \nothing
+
+// Ghost view of any error value: the text its Error() method returns, and (for values that
+// expose it) the Thrift type id. Error()/TypeId() of foreign values are assumed to be pure.
+
+//@ ghost $errtext string
+//@ ghost $typeid int32
+
+//@ extern errors.Is
+//@   ensures ret == ufbool("errors.Is", err, target)
 //@   assigns \nothing
